@@ -4,6 +4,7 @@
 #include "tree_props.hpp"
 #include "c03.hpp"
 #include "c20.hpp"
+#include "c09.hpp"
 
 using namespace vf;
 
@@ -66,6 +67,7 @@ int main(int argc, char **argv) {
     else if (prop == "c04") rc = drive("C04", opt, tp::c04);
     else if (prop == "c08") rc = drive("C08", opt, tp::c08);
     else if (prop == "c20") rc = drive("C20", opt, c20::body);
+    else if (prop == "c09") rc = drive("C09", opt, c09::body);
     else if (prop == "c12") rc = drive("C12", opt, tp::c12);
     if (opt.own_work) rm_rf(opt.work);
     return rc;
